@@ -47,6 +47,17 @@ def replay_sart(rec, ctx):
         if len(conv) != rec["iters"]:
             bad("stopping-rule-differs", f"{len(conv)} iterations, spec {rec['iters']} (conv {list(conv)} vs {want_c})")
             continue
+        # the same problem with geometry matrix and measurements multiplied by 10^e: same iterate, same convergence list
+        for e in rec.get("scale_exps", [0])[1:]:
+            sc = 10.0 ** e
+            g2 = x0.copy() if vname == "array" else guess        # the solvers iterate in the array they are given: a fresh copy per call
+            if beta == 0:
+                xs, cs = invert_sart(W * sc, b * sc, initial_guess=g2, max_iterations=maxit, relaxation=relax)
+            else:
+                xs, cs = invert_constrained_sart(W * sc, L, b * sc, initial_guess=g2, max_iterations=maxit, relaxation=relax, beta_laplace=beta)
+            if len(cs) != rec["iters"] or not core.close([float(q) for q in xs], [fr(p) for p in rec["x"]], rtol=1e-9, atol=1e-11):
+                bad(f"iterate-changes-when-W-and-b-are-scaled-by-1e{e}", f"x = {list(xs)} after {len(cs)} iterations, spec {[fr(p) for p in rec['x']]} after {rec['iters']}")
+                break
         if not core.close([float(c) for c in conv], want_c, rtol=1e-10, atol=1e-12):
             bad("convergence-list-differs", f"{list(conv)} vs {want_c}")
         if not core.close([float(v) for v in x], want_x, rtol=1e-10, atol=1e-12):
